@@ -267,44 +267,61 @@ func validDefinition(key string) []byte {
 // must discard; the way it is inadmissible rotates.
 func (w *World) eventLog(ev string) fakeeth.LogSpec {
 	bad := ev == "x"
-	key := ev
+	key, eonCl, f2Cl := ev, "ok", "ok"
+	if parts := strings.Split(ev, "_"); len(parts) == 3 { // value-classed token k_e_g (ChainSync.tla ClassTok)
+		key, eonCl, f2Cl = parts[0], parts[1], parts[2]
+	}
 	if bad {
 		w.nBad++
 		key = fmt.Sprintf("bad%d", w.nBad)
 	}
 	prefix := keyPrefix(key)
-	eon := uint64(eonOK)
+	eon := classU64(eonCl, eonOK)
+	// the way an "x" event is inadmissible depends on the block it lands in, so every way occurs
+	// in every position over the replayed histories
+	rot := len(w.Blk) + int(w.Seed)
 	switch w.Fl {
 	case FlRegistry:
 		if bad {
-			eon = uint64(math.MaxInt64) + 1 + uint64(w.nBad)
+			eon = []uint64{1 << 63, math.MaxUint64, uint64(math.MaxInt64) + 1 + uint64(w.nBad)}[rot%3]
 		}
-		return fakeeth.IdentityRegistered(addrRegistry, eon, prefix, addrSender, 1000+keyIndex(key))
+		return fakeeth.IdentityRegistered(addrRegistry, eon, prefix, addrSender, classU64(f2Cl, 1000+keyIndex(key)))
 	case FlSequencer:
-		gas := big.NewInt(21000)
+		gas := classBig(f2Cl, 21000)
 		idx := keyIndex(key)
 		if bad {
 			idx = 900 + uint64(w.nBad)
-			if (w.nBad+int(w.Seed))%2 == 0 {
-				eon = uint64(math.MaxInt64) + 1
-			} else {
-				gas = new(big.Int).Lsh(big.NewInt(1), 63) // not an int64
+			switch rot % 6 {
+			case 0:
+				eon = 1 << 63
+			case 1:
+				eon = math.MaxUint64
+			case 2:
+				gas = classBig("p63", 0)
+			case 3:
+				gas = classBig("wrap", 21000) // low 64 bits look like an ordinary gas limit
+			case 4:
+				gas = classBig("top", 0)
+			default:
+				eon, gas = 1<<63, classBig("p63", 0)
 			}
 		}
 		return fakeeth.TransactionSubmitted(addrSequencer, eon, idx, prefix, addrSender, []byte{0xca, 0xfe}, gas)
 	default:
 		def := validDefinition(key)
-		expiry := uint64(1_000_000)
+		expiry := classU64(f2Cl, 1_000_000)
 		if bad {
-			// the way it is inadmissible depends on the block it lands in, so every way occurs in
-			// every position over the replayed histories
-			switch (len(w.Blk) + int(w.Seed)) % 4 {
+			switch rot % 6 {
 			case 0:
 				eon = uint64(math.MaxInt64) + 1
 			case 1:
 				expiry = uint64(math.MaxInt64) + 1
 			case 2:
 				def = []byte{0x02, 0xc0} // version ok, RLP of an empty list: not a definition
+			case 3:
+				eon = math.MaxUint64
+			case 4:
+				expiry = math.MaxUint64
 			default: // decodable but invalid: a dynamic reference to a topic
 				d := shutterservice.EventTriggerDefinition{Contract: addrOther, LogPredicates: []shutterservice.LogPredicate{{
 					LogValueRef:    shutterservice.LogValueRef{Dynamic: true, Offset: 1},
@@ -314,6 +331,55 @@ func (w *World) eventLog(ev string) fakeeth.LogSpec {
 		}
 		return fakeeth.EventTriggerRegistered(addrTrigReg, eon, prefix, addrSender, def, expiry)
 	}
+}
+
+// classU64 / classBig concretise a value class of ChainSync.tla (ok = the ordinary value given).
+func classU64(cl string, ok uint64) uint64 {
+	switch cl {
+	case "max":
+		return math.MaxInt64
+	case "p63":
+		return 1 << 63
+	case "u64":
+		return math.MaxUint64
+	}
+	return ok
+}
+
+func classBig(cl string, ok int64) *big.Int {
+	one := big.NewInt(1)
+	switch cl {
+	case "max":
+		return big.NewInt(math.MaxInt64)
+	case "p63":
+		return new(big.Int).Lsh(one, 63)
+	case "u64":
+		return new(big.Int).Sub(new(big.Int).Lsh(one, 64), one)
+	case "wrap":
+		return new(big.Int).Add(new(big.Int).Lsh(one, 64), big.NewInt(21000))
+	case "top":
+		return new(big.Int).Sub(new(big.Int).Lsh(one, 256), one)
+	}
+	return big.NewInt(ok)
+}
+
+// storedTok names a stored row: the key and, unless both are ordinary, the classes of the STORED
+// eon and second numeric field ("?" = a value no admissible event has).
+func storedTok(key string, eon, f2, f2ok int64) string {
+	cl := func(v, ok int64) string {
+		switch v {
+		case ok:
+			return "ok"
+		case math.MaxInt64:
+			return "max"
+		}
+		return "?"
+	}
+	e, g := cl(eon, eonOK), cl(f2, f2ok)
+	if e == "ok" && g == "ok" {
+		return key
+	}
+	return key + "_" + e + "_" + g
 }
 
 // Mine adds abstract block len+1 on top of p with at most one event and makes it the head.
@@ -344,13 +410,13 @@ func (w *World) Mine(p int, ev string) int {
 	return id
 }
 
-// Extend adds a run of k eventless blocks on top of the head as ONE abstract record and makes its
+// Extend adds a run of k eventless blocks on top of block p as ONE abstract record and makes its
 // last block the head.
-func (w *World) Extend(k int) int {
+func (w *World) Extend(p, k int) int {
 	id := len(w.Blk) + 1
-	parent := w.headID(w.Canon)
-	num := w.Blk[w.Canon-1].Num + k
-	w.Blk = append(w.Blk, AbsBlk{Num: num, Par: w.Canon, Evs: []string{}, Len: k})
+	parent := w.headID(p)
+	num := w.Blk[p-1].Num + k
+	w.Blk = append(w.Blk, AbsBlk{Num: num, Par: p, Evs: []string{}, Len: k})
 	w.Eth.AddFiller(parent, fmt.Sprintf("b%d_r", id), k)
 	w.Switch(id)
 	return id
@@ -417,21 +483,23 @@ func (w *World) Abs(db *fakepg.DB) AbsState {
 			st.Synced = AbsSynced{Has: true, Num: w.absPosNum(r.BlockNumber), Hash: w.absHash(r.BlockHash, true)}
 		}
 		for _, r := range db.IdentityRegisteredEvent {
-			st.Rows = append(st.Rows, AbsRow{Key: w.keyOfPrefix(r.IdentityPrefix), Num: int(r.BlockNumber) / w.S, Bid: w.absHash(r.BlockHash, false)})
+			k := w.keyOfPrefix(r.IdentityPrefix)
+			st.Rows = append(st.Rows, AbsRow{Key: storedTok(k, r.Eon, r.Timestamp, int64(1000+keyIndex(k))), Num: int(r.BlockNumber) / w.S, Bid: w.absHash(r.BlockHash, false)})
 		}
 	case FlSequencer:
 		for _, r := range db.TransactionSubmittedEventsSyncedUntil {
 			st.Synced = AbsSynced{Has: true, Num: w.absPosNum(r.BlockNumber), Hash: w.absHash(r.BlockHash, true)}
 		}
 		for _, r := range db.TransactionSubmittedEvent {
-			st.Rows = append(st.Rows, AbsRow{Key: w.keyOfPrefix(r.IdentityPrefix), Num: int(r.BlockNumber) / w.S, Bid: w.absHash(r.BlockHash, false)})
+			k := w.keyOfPrefix(r.IdentityPrefix)
+			st.Rows = append(st.Rows, AbsRow{Key: storedTok(k, r.Eon, r.GasLimit, 21000), Num: int(r.BlockNumber) / w.S, Bid: w.absHash(r.BlockHash, false)})
 		}
 	default:
 		for _, r := range db.MultiEventSyncStatus {
 			st.Synced = AbsSynced{Has: true, Num: w.absPosNum(r.BlockNumber), Hash: w.absHash(r.BlockHash, true)}
 		}
 		for _, r := range db.EventTriggerRegisteredEvent {
-			st.Rows = append(st.Rows, AbsRow{Key: w.keyOfPrefix(r.IdentityPrefix), Num: int(r.BlockNumber) / w.S, Bid: w.absHash(r.BlockHash, false)})
+			st.Rows = append(st.Rows, AbsRow{Key: storedTok(w.keyOfPrefix(r.IdentityPrefix), r.Eon, r.ExpirationBlockNumber, 1_000_000), Num: int(r.BlockNumber) / w.S, Bid: w.absHash(r.BlockHash, false)})
 		}
 	}
 	sort.Slice(st.Rows, func(i, j int) bool {
